@@ -9,11 +9,11 @@ bookkeeping, invariant of reachable states), `Proofs/DSymGenCtx.lean` (contexts 
 `Proofs/DSymGenCurv.lean` (exactness in ℚ), `Proofs/DSymGenTree.lean` (the leaves of the search
 tree), `Proofs/DSymGenBox.lean` (the oracle's box).
 
-Not theorems (see `open_obligations` in conf/C07.json): that the orbit maps computed from
-`automorphisms()` are exactly the action of the automorphism group of the D-set on its
-2-orbits (C04 territory), and that the generator's private `orbifold_symbol` names the same
-orbifold as `delaney2d::orbifold_symbol` — both are decided by the Spec on every explored
-(D-set, geometry).
+Phase 2/3 (sections 7 ff.): the orbit maps are the action of the automorphism group
+(`orbit_maps_exact`), the private orbifold key agrees with `delaney2d::orbifold_symbol`
+(`private_orbifold_symbol_agrees`), the bound 7 loses nothing, `generate` is total on the domain,
+the All output is the disjoint union of the three.  Not theorems (see `open_obligations` in
+conf/C07.json): only statements about the Spec's own runtime oracle.
 -/
 import DSymVerif.Proofs.DSymGenGeom
 import DSymVerif.Proofs.DSymGenNodup
@@ -25,6 +25,7 @@ import DSymVerif.Proofs.DSymGenCensus
 import DSymVerif.Proofs.DSymGenOrient
 import DSymVerif.Proofs.DSymGenAgree
 import DSymVerif.Proofs.DSymGenBound
+import DSymVerif.Proofs.DSymGenTotal
 import DSymVerif.Proofs.DSymGenBox
 import DSymVerif.Proofs.Delaney2dChi
 import DSymVerif.Spec.C07
@@ -370,8 +371,8 @@ theorem canonical_iff (c : Ctx) (vs : List Nat) :
 
 /-- **exactly one canonical vector per class**: if the orbit maps form a group of permutations
     of the orbit numbers (identity, composition, inverses — which the action of the automorphism
-    group of the D-set on its 2-orbits is; that the computed maps are that action is the open
-    obligation `orbit_maps_exact_statement`), then `is_canonical` does not panic on vectors with
+    group of the D-set on its 2-orbits is; that the computed maps are that action is
+    `orbit_maps_exact` below), then `is_canonical` does not panic on vectors with
     one entry per orbit and every class {vs ∘ m | m a map} contains exactly one vector it
     accepts — the lexicographically largest. -/
 theorem canonical_one_per_class (c : Ctx) (ms : List (List Nat)) (hm : c.maps = some ms)
@@ -846,6 +847,94 @@ theorem spherical_window_top (ds : DSetData) (g : Geom) (c : Ctx) (h : mkCtx ds 
   have : ((scaled c vs : Int) : ℚ) ≤ ((4 * curvFac : Int) : ℚ) := by
     rw [he]; push_cast; nlinarith
   exact_mod_cast this
+
+/-! ### 8. assembly: negative base curvature, totality, the All output -/
+
+/-- the size bound under which `-CURV_FAC/2 · size` (computed by the real code in `i64`) cannot
+    reach `i64::MIN`; carried as an explicit hypothesis where the window of a context with negative
+    base curvature is evaluated -/
+def SizeFits (ds : DSetData) : Prop := ds.size ≤ 4294967296
+
+/-- **`base_curvature < 0`, the output per geometry** (size ≤ 2^32): Hyperbolic and All emit
+    exactly the all-minimal vector, Spherical and Euclidean emit nothing.  With
+    `base_negative_complete`: that vector has negative curvature and is the only minimally
+    hyperbolic vector, and nothing euclidean or spherical exists — so sign, soundness and
+    completeness hold for these D-sets in all four geometries. -/
+theorem dsyms_output_base_negative_total (ds : DSetData) (g : Geom) (c : Ctx) (h : mkCtx ds g = .ok c)
+    (hb : c.baseCurv < 0) (hsz : SizeFits ds) :
+    dsyms c = (match g with
+      | .hyperbolic => [.ok c.vmins]
+      | .all => [.ok c.vmins]
+      | _ => []) ∧
+    i64Min ≤ c.baseCurv ∧ curvQ c c.vmins < 0 ∧ MinHypQ c c.vmins ∧
+    ∀ vs, vs.length = c.count → (∀ i, i < c.count → c.vmins.getD i 0 ≤ vs.getD i 0) →
+      curvQ c vs < 0 ∧ (MinHypQ c vs → vs = c.vmins) := by
+  have hw := mkCtx_wf h
+  have hself := base_negative_all hw hb c.vmins rfl (fun _ _ => Nat.le_refl _)
+  exact ⟨dsyms_base_neg_total h hb hsz, base_ge_i64Min h hsz, hself.1, hself.2.1,
+    fun vs hl hlo => ⟨(base_negative_all hw hb vs hl hlo).1, (base_negative_all hw hb vs hl hlo).2.2⟩⟩
+
+/-- **`generate` never panics on the domain**: every item the iterator yields is an `ok` vector
+    with one positive entry per orbit (`is_good`, `is_canonical`, `children` and `from_partial`'s
+    assertion never fail), so `DSyms::new(..).collect()` returns; the `symbol_count` numbers are
+    1, 2, 3, … unconditionally. -/
+theorem generate_never_panics (ds : DSetData) (g : Geom) (hd : InDomain ds) :
+    ∃ c l, mkCtx ds g = .ok c ∧ generate ds g = .ok (l, c) ∧
+      (∀ x, x ∈ dsyms c → ∃ vs, x = .ok vs ∧ vs.length = c.count ∧ ∀ v, v ∈ vs → 0 < v) ∧
+      dsyms c = l.map (fun p => .ok p.2) ∧
+      l.map (·.1) = (List.range l.length).map (· + 1) := by
+  obtain ⟨c, hc⟩ := new_never_panics ds g hd
+  obtain ⟨l, hl⟩ := generate_ok hc hd.valid hd.connected hd.nonempty
+  obtain ⟨_, h2, h3, _⟩ := counters_consecutive ds g l c hl
+  exact ⟨c, l, hc, hl, fun x hx => dsyms_all_ok hc hd.valid hd.connected hd.nonempty x hx, h2, h3⟩
+
+/-- **the All output is the disjoint union of the three** (size ≤ 2^32): for the four contexts of
+    one D-set (any D-set on which `new` answers), a vector is emitted under All iff it is emitted under Spherical,
+    Euclidean or Hyperbolic, and no vector is emitted under two of these. -/
+theorem all_is_disjoint_union (ds : DSetData) (hsz : SizeFits ds)
+    (cS cE cH cA : Ctx) (hS : mkCtx ds .spherical = .ok cS) (hE : mkCtx ds .euclidean = .ok cE)
+    (hH : mkCtx ds .hyperbolic = .ok cH) (hA : mkCtx ds .all = .ok cA) (vs : List Nat) :
+    (Outcome.ok vs ∈ dsyms cA ↔
+      Outcome.ok vs ∈ dsyms cS ∨ Outcome.ok vs ∈ dsyms cE ∨ Outcome.ok vs ∈ dsyms cH) ∧
+    ¬ (Outcome.ok vs ∈ dsyms cS ∧ Outcome.ok vs ∈ dsyms cE) ∧
+    ¬ (Outcome.ok vs ∈ dsyms cS ∧ Outcome.ok vs ∈ dsyms cH) ∧
+    ¬ (Outcome.ok vs ∈ dsyms cE ∧ Outcome.ok vs ∈ dsyms cH) := by
+  have eS := mkCtx_same hA hS
+  have eE := mkCtx_same hA hE
+  have eH := mkCtx_same hA hH
+  by_cases hb : cA.baseCurv < 0
+  · have hbS : cS.baseCurv < 0 := by rw [eS]; exact hb
+    have hbE : cE.baseCurv < 0 := by rw [eE]; exact hb
+    have hbH : cH.baseCurv < 0 := by rw [eH]; exact hb
+    have hvH : cH.vmins = cA.vmins := by rw [eH]
+    rw [dsyms_base_neg_total hA hb hsz, dsyms_base_neg_total hS hbS hsz,
+      dsyms_base_neg_total hE hbE hsz, dsyms_base_neg_total hH hbH hsz, hvH]
+    simp
+  · have hw := mkCtx_wf hA
+    have mA := dsyms_mem_geom hA hA hb vs
+    have mS := dsyms_mem_geom hA hS hb vs
+    have mE := dsyms_mem_geom hA hE hb vs
+    have mH := dsyms_mem_geom hA hH hb vs
+    rw [mA, mS, mE, mH]
+    by_cases ha : Adm cA vs
+    · obtain ⟨g1, g2, g3, g4⟩ := geomCond_all_iff hw ha
+      refine ⟨?_, fun hh => g2 ⟨hh.1.2.1, hh.2.2.1⟩, fun hh => g3 ⟨hh.1.2.1, hh.2.2.1⟩,
+        fun hh => g4 ⟨hh.1.2.1, hh.2.2.1⟩⟩
+      constructor
+      · rintro ⟨_, hg, r1, r2⟩
+        rcases g1.mp hg with x | x | x
+        · exact Or.inl ⟨ha, x, r1, r2⟩
+        · exact Or.inr (Or.inl ⟨ha, x, r1, r2⟩)
+        · exact Or.inr (Or.inr ⟨ha, x, r1, r2⟩)
+      · rintro (⟨_, x, r1, r2⟩ | ⟨_, x, r1, r2⟩ | ⟨_, x, r1, r2⟩)
+        · exact ⟨ha, g1.mpr (Or.inl x), r1, r2⟩
+        · exact ⟨ha, g1.mpr (Or.inr (Or.inl x)), r1, r2⟩
+        · exact ⟨ha, g1.mpr (Or.inr (Or.inr x)), r1, r2⟩
+    · exact ⟨⟨fun hh => absurd hh.1 ha, fun hh => by
+        rcases hh with x | x | x <;> exact absurd x.1 ha⟩,
+        fun hh => ha hh.1.1, fun hh => ha hh.1.1, fun hh => ha hh.1.1⟩
+
+example : InDomain ex1 ∧ SizeFits ex1 := ⟨ex1_inDomain, by unfold SizeFits; decide⟩
 
 /-! ### open (not theorems): the statements, for the record -/
 
